@@ -28,6 +28,15 @@ RULE = ("every operator (+ - * // / % divmod, == != < <= > >=, unary - abs + has
         "N < 0 under the reflected - // / % divmod inherited from timedelta) -- __radd__ / __rmul__ are pendulum's, __rsub__ __rfloordiv__ __rtruediv__ __rmod__ __rdivmod__ must remain "
         "timedelta's own arithmetic on the native lengths; absolute-left-*: the absolute Intervals / AbsoluteDurations on the LEFT of every operator; interval-unary: -i abs(i) +i bool(i) "
         "of every kind of Interval (model entry ivl_unop; -i of a non-zero absolute Interval is the known finding neg-absolute-interval). "
+        "SUBCLASS INSTANCES OVERRIDING THE PUBLIC ACCESSORS on EITHER side of every operator (subclass-right-table / subclass-left-table: 7 operators x 9 other operands x 41 "
+        "subclass operands, both orders; subclass-right-<op> / subclass-left-<op>: 1800 random; subclass-unary, subclass-ym-mul-int, subclass-compare): Intervals signed, inverted, "
+        "absolute start-first and end-first whose span is a whole number of calendar months (calendar residual 0 days), months + hours / microseconds, months + days, > 31 days "
+        "(years, months, weeks, remaining_days of such an Interval are the CALENDAR residual, not the parts of its length), and a USER SUBCLASS of Duration (value [sdur, <constructor "
+        "arguments>]) every public property of which (years months weeks days remaining_days hours minutes seconds remaining_seconds microseconds invert) answers something else than "
+        "the private field; the other operand a Duration / timedelta / Interval / such a subclass instance / int / float, near multiples of the subclass operand and short lengths for "
+        "// / % divmod. An Interval or subclass instance on the RIGHT of a Duration-like operand is part of every older stream too (the former exclusion is gone). "
+        "prim-timedelta_to_microseconds-subclass: the divisor conversion on subclass instances, JUDGED against the native length (as is prim-timedelta_to_microseconds-history for "
+        "year-free operands); history-subclass-divisor: one process dividing by the twins of ONE month-spanning length (Interval of each kind, user subclass, timedelta, Duration), either side. "
         "A case is non-trivial when an operand is non-zero.")
 EXHAUSTIVE = {"quick": False, "thorough": False}
 VM_SUBSET = 60
@@ -60,7 +69,7 @@ HIST_UNOPS = dict(UNOPS, touch=19)       # touch (only inside a history): read e
 ARITH = ("add", "sub", "mul", "floordiv", "truediv", "mod", "divmod")
 DIVOPS = ("floordiv", "truediv", "mod", "divmod")
 CMP = ("eq", "ne", "lt", "le", "gt", "ge")
-KIND = {"int": 1, "float": 2, "dur": 3, "td": 4, "ivl": 5, "ref": 6, "adur": 7}
+KIND = {"int": 1, "float": 2, "dur": 3, "td": 4, "ivl": 5, "ref": 6, "adur": 7, "sdur": 3}       # sdur: in the model a Duration (the class of an operand is not an input of any operator)
 
 
 # ----------------------------------------------------------------------------- float <-> integers (same wire format as C09)
@@ -155,7 +164,7 @@ def dur_native(a):
 
 
 def has_ym(v):
-    return v[0] == "dur" and (v[8] != 0 or v[9] != 0)
+    return v[0] in ("dur", "sdur") and (v[8] != 0 or v[9] != 0)
 
 
 def enc(v):
@@ -165,7 +174,14 @@ def enc(v):
 
 
 def tdlike(v):
-    return v[0] in ("dur", "td", "ivl", "adur")
+    return v[0] in ("dur", "td", "ivl", "adur", "sdur")
+
+
+def v_sdur(n=0, years=0, months=0, rnd=None):
+    """the same constructor arguments as v_dur, for an instance of a USER SUBCLASS of Duration that overrides every public accessor
+    (years months weeks days remaining_days hours minutes seconds remaining_seconds microseconds invert) with values that differ from the
+    private fields -- as Interval does with the calendar residual.  Its native timedelta and its private fields are those of the Duration."""
+    return ["sdur"] + v_dur(n, years, months, rnd)[1:]
 
 
 # ----------------------------------------------------------------------------- case streams
@@ -217,9 +233,7 @@ def cases(tier, seed):
     out = []
 
     def binop(stream, op, l, r):
-        if l[0] in ("dur", "ivl") and r[0] == "ivl":
-            return          # an Interval on the right of a Duration: the subclass's own reflected methods, not part of the model
-        if not ({l[0], r[0]} & {"dur", "ivl", "adur"}):
+        if not ({l[0], r[0]} & {"dur", "ivl", "adur", "sdur"}):
             return          # no pendulum object involved
         if op in CMP and "ivl" in (l[0], r[0]):
             return          # Interval overrides __eq__/__hash__ (start, end, absolute): outside the statement
@@ -367,6 +381,8 @@ def cases(tier, seed):
         binop("range", "sub", v_td(a), v_dur(-a))
     # 9b. a plain timedelta / int / float on the LEFT of every operator, every kind of pendulum object on the RIGHT (own random stream)
     reflected_cases(random.Random(seed * 104729 + 1010), scale, binop, unop)
+    # 9c. SUBCLASS instances that override the public accessors (Interval of every kind spanning months, a user subclass) on EITHER side (own random stream)
+    subclass_cases(random.Random(seed * 15485863 + 1010), scale, binop, unop, out)
     # 10. primitives
     for _ in range(1500 * scale):
         a = rnd.choice([1, -1]) * rnd.randrange(0, 10 ** rnd.randrange(1, 24))
@@ -454,6 +470,123 @@ def reflected_cases(rnd, scale, binop, unop):
         unop("interval-unary", rnd.choice(["neg", "abs", "pos", "bool"]), rnd.choice([v_ivl(n), v_ivl(abs(n), 1), v_ivl(-abs(n), 1)]))
 
 
+# ----------------------------------------------------------------------------- subclass instances overriding the public accessors
+# Interval overrides years / months / weeks / remaining_days / hours / minutes with the CALENDAR residual of its end points (45 days from
+# 4000-01-01 = 1 month 14 days: weeks 2, remaining_days 0, months 1), a user subclass may override any public accessor.  The operators of the
+# statement must go on computing with the native length (the private fields) of such an operand, on whichever side it stands.
+BASE_YMD = (4000, 1, 1)
+
+
+def months_us(k):
+    """microseconds from the base 4000-01-01 to the first of the month k calendar months later (k may be negative): an Interval of exactly
+    k months, calendar residual 0 days"""
+    from datetime import datetime
+    y, m = divmod(BASE_YMD[1] - 1 + k, 12)
+    return _us(datetime(BASE_YMD[0] + y, m + 1, 1) - datetime(*BASE_YMD))
+
+
+def month_span(rnd, hi):
+    """a length of at least one calendar month counted from the base: whole months, whole months + a few hours / microseconds (residual 0 days),
+    months + days, or any length beyond 31 days"""
+    r = rnd.random()
+    kmax = max(1, min(800, hi // (31 * DAY_US) - 1))
+    if r < 0.25:
+        n = months_us(rnd.randint(1, kmax))
+    elif r < 0.45:
+        n = months_us(rnd.randint(1, kmax)) + rnd.choice([1, 999999, US, 2 * 3600 * US, 5 * 3600 * US + 7 * US + 11, DAY_US - 1])
+    elif r < 0.7:
+        n = months_us(rnd.randint(1, kmax)) + rnd.randint(1, 27) * DAY_US + rnd.randrange(0, DAY_US)
+    else:
+        n = rnd.randrange(31 * DAY_US, max(32 * DAY_US, hi))
+    return min(n, hi - 1)
+
+
+def sub_kinds(rnd, n):
+    """every kind of accessor-overriding subclass instance of native length n (|n| for the absolute Intervals)"""
+    return [v_ivl(n), v_ivl(-n), v_ivl(abs(n), 1), v_ivl(-abs(n), 1), v_sdur(n), v_sdur(n, rnd=rnd)]
+
+
+def subclass_cases(rnd, scale, binop, unop, out):
+    H = B31 // 2
+    M1, M2, Y1 = months_us(1), months_us(2), months_us(12)
+    X = 100 * DAY_US + 7 * 3600 * US + 11
+    spans = [M1, M2, Y1, M1 + 2 * 3600 * US, 45 * DAY_US + 5 * 3600 * US + 7 * US, 400 * DAY_US + 3, 38 * DAY_US, M2 - 1, 14 * DAY_US]
+    subs = []
+    for n in spans:
+        subs += [v_ivl(n), v_ivl(-n), v_ivl(n, 1), v_ivl(-n, 1)]
+    subs += [v_sdur(X), v_sdur(-(45 * DAY_US + 1)), v_sdur(M1, rnd=rnd), v_sdur(0), v_ivl(0)]
+    others = [v_dur(X), v_dur(1000 * DAY_US + US), v_td(X), v_td(-1000 * DAY_US - 1), v_ivl(1000 * DAY_US + US), v_sdur(X), v_int(3), v_float(2.5), v_dur(0)]
+    for op in ARITH:
+        for o in others:
+            for sb in subs:
+                binop("subclass-right-table", op, o, sb)
+                binop("subclass-left-table", op, sb, o)
+    for op in UNOPS:
+        for v in (v_sdur(X), v_sdur(-X), v_sdur(0), v_sdur(12345678, years=2, months=-3), v_sdur(-M1, years=-1, months=5, rnd=rnd)):
+            unop("subclass-unary", op, v)
+    for op in ("neg", "abs", "pos", "bool"):
+        for n in spans[:8]:
+            for v in (v_ivl(n), v_ivl(-n), v_ivl(n, 1), v_ivl(-n, 1)):
+                unop("subclass-unary", op, v)
+    for _ in range(1800 * scale):
+        op = rnd.choice(ARITH)
+        n = month_span(rnd, H) if rnd.random() < 0.7 else (rand_mag(rnd, hi=H) or 1)
+        n *= rnd.choice([1, 1, -1])
+        sb = rnd.choice(sub_kinds(rnd, n))
+        right = rnd.random() < 0.6
+        if op == "mul" or (not right and op in ("floordiv", "truediv") and rnd.random() < 0.3):
+            if rnd.random() < 0.5:
+                o = v_int(rnd.choice([1, -1]) * rnd.randrange(0, max(2, min(10 ** 4, H // max(1, abs(n))))))
+            else:
+                o = v_float(rand_float_operand(rnd))
+        else:
+            r = rnd.random()
+            if op in DIVOPS and r < 0.35:
+                a = n * rnd.randint(-2000, 2000) + rnd.choice([0, 0, 1, -1, n // 2, rnd.randrange(0, abs(n) + 1)])      # near multiples of the subclass operand
+            elif op in DIVOPS and r < 0.5:
+                a = rnd.choice([1, -1]) * rnd.randrange(1, 10 ** rnd.randrange(1, 12))                                     # short: the subclass operand is many of them
+            else:
+                a = rand_n(rnd, hi=H)
+            if abs(a) >= H:
+                a = rand_n(rnd, hi=H)
+            k = rnd.choice(["dur", "durx", "td", "ivl", "ivla", "sdur", "sub"])
+            o = (v_dur(a) if k == "dur" else v_dur(a, rnd=rnd) if k == "durx" else v_td(a) if k == "td" else v_ivl(a) if k == "ivl" else v_ivl(a, 1) if k == "ivla"
+                 else v_sdur(a, rnd=rnd) if k == "sdur" else rnd.choice(sub_kinds(rnd, month_span(rnd, H) * rnd.choice([1, -1]))))
+        if right:
+            binop("subclass-right-" + op, op, o, sb)
+        else:
+            binop("subclass-left-" + op, op, sb, o)
+    for _ in range(200 * scale):
+        y, mo = rnd.randint(-9, 9), rnd.randint(-20, 20)
+        d = v_sdur(rand_n(rnd, hi=10 ** 14), years=y, months=mo, rnd=rnd)
+        unop("subclass-unary", rnd.choice(list(UNOPS)), d if rnd.random() < 0.6 else v_sdur(rand_n(rnd, hi=H), rnd=rnd))
+        k = rnd.randint(-50, 50)
+        binop("subclass-ym-mul-int", "mul", d, v_int(k))
+        binop("subclass-ym-mul-int", "mul", v_int(k), d)
+        op = rnd.choice(CMP)
+        other = rnd.choice([v_td(dur_native(d[1:])), v_td(dur_native(d[1:]) + rnd.choice([1, -1])), v_dur(dur_native(d[1:])), v_sdur(rand_n(rnd, hi=H))])
+        binop("subclass-compare", op, d, other)
+        binop("subclass-compare", op, other, d)
+    # the divisor conversion itself on subclass instances (judged: the native length) and histories whose divisors are twins of ONE month-spanning length
+    for _ in range(300 * scale):
+        n = month_span(rnd, H) * rnd.choice([1, -1])
+        out.append({"stream": "prim-timedelta_to_microseconds-subclass", "fn": "tdus", "backends": ["py"],
+                    "args": [rnd.choice(sub_kinds(rnd, n) + [v_td(n), v_dur(n, rnd=rnd)]) for _ in range(rnd.randint(2, 4))]})
+    for _ in range(250 * scale):
+        n = month_span(rnd, H) * rnd.choice([1, -1])
+        x = rnd.choice([v_dur(rand_n(rnd, hi=H), rnd=rnd), v_ivl(rand_n(rnd, hi=H)), v_sdur(rand_n(rnd, hi=H)), v_td(rand_n(rnd, hi=H)), v_dur(n * rnd.randint(-50, 50) + rnd.randint(-1, 1))])
+        steps = []
+        for _k in range(rnd.randint(2, 4)):
+            op = rnd.choice(DIVOPS) if rnd.random() < 0.8 else rnd.choice(("add", "sub"))
+            y = rnd.choice(sub_kinds(rnd, n) + [v_td(n), v_dur(n, rnd=rnd)])
+            st = [op, x, y] if rnd.random() < 0.75 else [op, y, x]
+            if _pend(st[1]) or _pend(st[2]):
+                steps.append(st)
+        steps = [st for st in steps if step_ok(st)]
+        if len(steps) >= 2:
+            out.append({"stream": "history-subclass-divisor", "fn": "seq", "args": [int(rnd.random() < 0.4), steps]})
+
+
 # ----------------------------------------------------------------------------- histories (fn "seq")
 # A history is a straight-line program executed in ONE process, in order: args = [share, [step, ...]], step = [op, operand(, operand)].
 # An operand is a literal value, ["adur", N], or ["ref", i] = the very object step i returned.  With share = 1 equal literals are one object.
@@ -498,7 +631,7 @@ def scalar_twin(rnd, k):
 
 
 def _pend(v):
-    return v[0] in ("dur", "ivl", "adur")
+    return v[0] in ("dur", "ivl", "adur", "sdur")
 
 
 def step_ok(st):
@@ -506,8 +639,6 @@ def step_ok(st):
     op, vals = st[0], st[1:]
     if len(vals) == 2:
         l, r = vals
-        if r[0] == "ivl" and l[0] in ("dur", "ivl", "adur", "ref"):
-            return False
         if op in CMP and "ivl" in (l[0], r[0]):
             return False
     return True
@@ -729,6 +860,10 @@ def _canon(r, Duration):
     if t is bool:
         return [0, 7, int(r)]
     # results of the subclasses (self.__class__(...) inside an operator of an AbsoluteDuration; -i / abs(i) of an Interval)
+    if t.__name__ == "Skewed" and isinstance(r, Duration):
+        return [0, 13] + _obs(r)
+    if t is tuple and len(r) == 2 and type(r[0]) is int and type(r[1]).__name__ == "Skewed" and isinstance(r[1], Duration):
+        return [0, 16, r[0]] + _obs(r[1])
     if t.__name__ == "AbsoluteDuration" and isinstance(r, Duration):
         return [0, 11] + _obs(r)
     if t.__name__ == "Interval" and isinstance(r, Duration):
@@ -752,6 +887,21 @@ def impl_run(cases):
     METHODS = ("total_seconds", "total_minutes", "total_hours", "total_days", "total_weeks", "in_weeks", "in_days", "in_hours", "in_minutes", "in_seconds",
                "as_timedelta", "__repr__", "__hash__", "__bool__")
     BAD = object()
+
+    class Skewed(Duration):
+        """a user subclass that overrides every PUBLIC accessor with something else than the private field (the way Interval overrides
+        weeks / remaining_days / years / months / hours / minutes with the calendar residual); nothing private, no method, no operator"""
+        years = property(lambda self: self._years + 1)
+        months = property(lambda self: self._months - 2)
+        weeks = property(lambda self: 0)
+        days = property(lambda self: self._remaining_days)
+        remaining_days = property(lambda self: (abs(self._days) + 3) % 7)
+        hours = property(lambda self: 0)
+        minutes = property(lambda self: 59)
+        seconds = property(lambda self: abs(self._seconds) % 60)
+        remaining_seconds = property(lambda self: self._seconds)
+        microseconds = property(lambda self: 999999 - abs(self._microseconds))
+        invert = property(lambda self: not (self.total_seconds() < 0))
 
     def run_seq(share, steps):
         """the steps of one history, in order, in this process; returns the canonical result of every step"""
@@ -815,6 +965,9 @@ def impl_run(cases):
             return Interval(base, base + timedelta(microseconds=v[1]))
         if k == "adur":
             return AbsoluteDuration(microseconds=v[1])
+        if k == "sdur":
+            d, s, us, ms, mi, h, w, y, mo = v[1:]
+            return Skewed(days=d, seconds=s, microseconds=us, milliseconds=ms, minutes=mi, hours=h, weeks=w, years=y, months=mo)
         raise ValueError(k)
     out = []
     for c in cases:
@@ -912,7 +1065,35 @@ def model_result(c, backend, outs):
     return list(o)
 
 
+def _desub_val(v):
+    return ["dur"] + list(v[1:]) if isinstance(v, list) and v and v[0] == "sdur" else v
+
+
+def _desub_res(r):
+    """a result of the user subclass is a Duration (13 -> 1), a (quotient, remainder of the subclass) a (int, Duration) (16 -> 4)"""
+    if isinstance(r, list) and len(r) > 1 and r[0] == 0 and r[1] in (13, 16):
+        return [0, 1 if r[1] == 13 else 4] + list(r[2:])
+    return r
+
+
+def _desub(c, r):
+    """the case and its implementation result with every instance of the user subclass read as the Duration it is: an operand's class is no input
+    of any operator (the model has no such input) and the statement asks for `a Duration`, which an instance of a subclass is"""
+    fn, a = c["fn"], c["args"]
+    if fn in ("binop", "unop"):
+        return dict(c, args=[a[0]] + [_desub_val(v) for v in a[1:]]), _desub_res(r)
+    if fn == "seq":
+        c2 = dict(c, args=[a[0], [[st[0]] + [_desub_val(v) for v in st[1:]] for st in a[1]]])
+        if isinstance(r, list) and len(r) == 2 and r[0] == 0 and isinstance(r[1], list):
+            r = [0, [_desub_res(x) for x in r[1]]]
+        return c2, r
+    if fn == "tdus":
+        return dict(c, args=[_desub_val(v) for v in a]), r
+    return c, r
+
+
 def same(c, m, r):
+    c, r = _desub(c, r)
     if c["fn"] == "seq" and m[0] == 0 and r[0] == 0 and len(m[1]) == len(r[1]):
         # steps with an AbsoluteDuration operand are executed (they belong to the history) but not modelled
         return all(x == y for st, x, y in zip(c["args"][1], m[1], r[1]) if not any(v[0] == "adur" for v in st[1:]))
@@ -1129,6 +1310,7 @@ def _seq_oracle(c, r):
 
 
 def oracle(c, backend, r):
+    c, r = _desub(c, r)
     if c["fn"] == "seq":
         return _seq_oracle(c, r)
     if c["fn"] not in ("binop", "unop"):
@@ -1141,6 +1323,19 @@ def _prim_oracle(c, r):
     """The translated / hand-written primitives against exact arithmetic (fractions)."""
     from fractions import Fraction
     fn, a = c["fn"], c["args"]
+    if fn == "tdus":
+        # _timedelta_to_microseconds(x), the divisor of // / % divmod, is the native length of x -- whatever the class of x and whatever its public
+        # accessors answer -- for every operand without years / months (with them it is the year-free part: judged by the correspondence only)
+        if r[0] != 0 or not isinstance(r[1], list) or len(r[1]) != len(a):
+            return f"the conversions did not run: {r}"
+        for i, (v, ri) in enumerate(zip(a, r[1])):
+            if has_ym(v) or v[0] not in ("dur", "td", "ivl"):
+                continue
+            want = _us(_native(v))
+            if ri != [0, want]:
+                return (f"_timedelta_to_microseconds of operand {i} {v} (conversion {i + 1} of {len(a)} in one process) = "
+                        f"{ri[1] if ri[0] == 0 else 'raised ' + str(ri[1])}, its native length is {want} us")
+        return None
     if fn == "dar":
         p, q = a
         if q == 0:
@@ -1166,6 +1361,7 @@ def _prim_oracle(c, r):
 
 
 def known(c, backend, r):
+    c, r = _desub(c, r)
     if c["fn"] == "seq":
         # a history is excused only when EVERY failing step, taken as a single-operator case, is the same listed finding
         ks = {known(sub, backend, ri) if sub is not None else None for _i, _w, _d, sub, ri in _seq_failures(c, r)}
@@ -1233,7 +1429,7 @@ TECHNIQUE = "translator (py2gallina + per-branch constructor-argument extraction
 # the statements that carried them are restated without premise
 TRUSTED = list(TRUSTED) + [
     "Flocq (installed library) correctness theorems for binary64 operations, bridged to Coq's SpecFloat in coq/Proofs/FloatRoundTripBase.v / FloatRoundTripNear.v (Bplus, Bminus, Bmult, Bdiv, binary_round; relative_error_N_FLT)",
-    "standard-library axioms reported by Print Assumptions for the unconditional float theorems only (to_microseconds_constructed, remainder_constructible, chain_mod_then_div, add_exact, sub_exact, mul_int_exact, and the Interval theorems that use the exact round trip of total_seconds() below 2^33 s: interval_native_length, timedelta_minus_absolute_interval_exact(_example), interval_negation_signed, interval_negation_native_refuted / _partial, interval_abs_native_length): ClassicalDedekindReals.sig_not_dec, "
+    "standard-library axioms reported by Print Assumptions for the unconditional float theorems only (to_microseconds_constructed, remainder_constructible, chain_mod_then_div, add_exact, sub_exact, mul_int_exact, and the Interval theorems that use the exact round trip of total_seconds() below 2^33 s: interval_native_length, timedelta_minus_absolute_interval_exact(_example), interval_negation_signed, interval_negation_native_refuted / _partial, interval_abs_native_length, interval_stores_native_length, interval_divisor_is_native_length, div_mod_by_interval_spec, interval_divisor_kind_irrelevant): ClassicalDedekindReals.sig_not_dec, "
     "ClassicalDedekindReals.sig_forall_dec, FunctionalExtensionality.functional_extensionality_dep, Classical_Prop.classic (the real-number axioms Flocq and Reals rest on); "
     "every other theorem, the *_partial forms included, is closed under the global context",
 ]
@@ -1263,3 +1459,10 @@ LEVEL_NOTE = LEVEL_NOTE + (" Model = code: coq/Gen/DurationOpsFloat.v is transla
                            "operators) and Proofs/DurationOpsFloatFacts.v proves each equal to the hand model's dur_method / unop / durlike_method entry for all operands, so a semantic "
                            "edit of an operator breaks a proof (self-tested by mutation) rather than only a source pin. Inherited from timedelta, hence nothing to translate: __abs__, "
                            "__rsub__ and the other reflected operators, comparisons, hash (g50 fails closed if Duration starts defining them).")
+LEVEL_NOTE = LEVEL_NOTE + (" Subclass operands: an Interval (any kind, any span) on the RIGHT of a Duration / Interval is inside the model (dur_method treats VIvl like VDur; "
+                           "Proofs/C10Subclass.v: subclass_right_operand_class_irrelevant, interval_stores_native_length, interval_divisor_is_native_length, div_mod_by_interval_spec, "
+                           "interval_divisor_kind_irrelevant, month_spanning_divisor_example); the model evaluates `d + i` / `d * i` as Duration's own method although Python asks "
+                           "Interval.__radd__ / __rmul__ first (same value: float + commutes and as_duration() round-trips below 2^33 s) -- tied by the subclass-right-* streams. "
+                           "The calendar accessors of an Interval (precise_diff) and the overridden properties of the user subclass are NOT modelled: in the model a user-subclass "
+                           "instance is the Duration with the same constructor arguments (kind 3; result kinds 13 / 16 are read as 1 / 4 by same() and the oracle, which asks for `a Duration`), "
+                           "so that the operators never read a public accessor is established by correspondence + oracle on every run, not by proof.")
